@@ -97,11 +97,16 @@ def reference_model(ahb, evaluations, soll_is_required):
 # --------------------------------------------------------------------------------------------------- generation
 def generate(seed, tier="quick"):
     rnd = rng(seed, "c13")
+    big = tier == "thorough" and seed % 4 == 0  # deeper bounds for a quarter of the thorough runs
     world, cer, universe = gen_world(rnd)
-    pool = gen_expression_pool(rnd, universe)
+    pool = gen_expression_pool(rnd, universe, depth=(0, 3) if big else (0, 2), max_parts=4 if big else 3)
     entry = "deep" if rnd.random() < 0.8 else "level"
     if entry == "deep":
-        ahb = gen_validation_ahb(rnd, pool, depth=rnd.choice([1, 2, 2, 3, 4]))
+        if big:
+            ahb = gen_validation_ahb(rnd, pool, n_roots=(2, 5), depth=rnd.choice([2, 3, 4, 5]), fanout=(0, 3),
+                                     n_segments=(0, 4), n_des=(0, 5))
+        else:
+            ahb = gen_validation_ahb(rnd, pool, depth=rnd.choice([1, 2, 2, 3, 4]))
         if rnd.random() < 0.08:  # discriminators need not be unique: every node is still reported once, in place
             nodes = [n for n, _ in walk(ahb)]
             if len(nodes) >= 2:
